@@ -287,6 +287,32 @@ package types
 //@ func (h IGovHandler) MinSelfStakeRatio()
 //@   pure
 
+//@ func (h IGovHandler) RewardPerPower()
+//@   pure
+//@   ensures result != nil && u(result) == govRwdPerPower[h] && 0 <= u(result) && u(result) < 2^128
+
+//@ func (h IGovHandler) SlashRatio()
+//@   pure
+//@   ensures result == govSlashRatio[h] && 0 <= result && result <= 100
+
+//@ func (h IGovHandler) SignedBlocksWindow()
+//@   pure
+//@   ensures result == govSignedWindow[h] && 0 <= result && result < 2^40
+
+//@ func (h IGovHandler) MinSignedBlocks()
+//@   pure
+//@   ensures result == govMinSigned[h] && 0 <= result && result < 2^40
+
+//@ func (h IGovHandler) MaxValidatorCnt()
+//@   pure
+//@   ensures 0 <= result && result < 2^31
+
+//@ func (h IGovHandler) MaxIndividualStakeRatio()
+//@   pure
+
+//@ func (h IGovHandler) MaxUpdatableStakeRatio()
+//@   pure
+
 //@ func (h IGovHandler) LazyRewardBlocks()
 //@   pure
 //@   ensures result == govLazyReward[h] && 0 <= result && result < 2^40
